@@ -1,18 +1,24 @@
-// C03: sequences of received frames.  Spliced into src/iface/interface/mod.rs under the single-socket-type
-// configurations KI4t (TCP) and KI4u (UDP): with a one-variant `Socket` enum several frames through the real
-// `process_ip` fit in memory (under KI4 a second free-byte frame ran out of memory).
+// C03: sequences of received frames.  Spliced into src/iface/interface/mod.rs under single-socket-type build
+// configurations (KI4t / KI4u / KI4i raw-IP IPv4 with TCP / UDP / ICMP sockets, KE4u Ethernet IPv4, KI6t / KI6i / KI6u
+// raw-IP IPv6, KLi IEEE 802.15.4 + 6LoWPAN, KDd Ethernet IPv4 with the DHCPv4 client): with a one-variant `Socket` enum
+// several frames through the real ingress functions fit in memory (under KI4 a second free-byte frame ran out of memory).
 //
-// Each harness delivers a short sequence of packets whose bytes are free (IPv4 header octet 0 fixed to 0x45 so the
-// interesting code is reached; total length, flags, fragment offset, protocol, addresses and the whole payload are
-// symbolic), then a well-formed echo request to the interface's address, and requires: no panic / overflow /
-// out-of-bounds access anywhere (Kani's implicit checks), every loop within its unwinding bound, and the echo
-// request answered from the interface's address.
-#[cfg(all(feature = "proto-ipv4", feature = "medium-ip"))]
-#[allow(dead_code, unused_imports, unused_variables, unused_mut)]
+// Each harness delivers a short sequence of frames through the interface's real ingress function for the medium
+// (`process_ip`, `process_ethernet`, `process_ieee802154`), the frames having a concrete IP header addressed to the
+// interface and free upper-layer octets (two frames with a free IP header ran out of memory in every configuration; the
+// free IP header is the single-frame subject of ipv4_bytes_free / ipv6_bytes_free), then a well-formed echo request to
+// the interface's address, and requires: no panic / overflow / out-of-bounds access anywhere (Kani's implicit checks),
+// every loop within its unwinding bound, and the echo request answered from the interface's address.
+//
+// The module itself is not feature-gated (the runner's replay dispatcher names `v_iface_seq::<harness>` in every
+// configuration one of the harnesses runs in); every item is.
+#[allow(dead_code, unused_imports, unused_variables, unused_mut, unused_macros, unused_assignments)]
 mod v_iface_seq {
     use super::*;
     use crate::iface::{SocketHandle, SocketStorage};
     use crate::phy::ChecksumCapabilities;
+    #[cfg(feature = "socket-icmp")]
+    use crate::socket::icmp;
     #[cfg(feature = "socket-tcp")]
     use crate::socket::tcp;
     #[cfg(feature = "socket-udp")]
@@ -20,6 +26,8 @@ mod v_iface_seq {
     use crate::verif_common::*;
     use crate::verif_dev::{CapDev, CapTx, TxState};
 
+    // ------------------------------------------------------------------ IPv4, raw-IP medium (KI4t, KI4u, KI4i)
+    #[cfg(feature = "proto-ipv4")]
     const OWN: Ipv4Address = Ipv4Address::new(192, 168, 1, 1);
     const OWN_U32: u32 = 0xc0a8_0101;
 
@@ -33,6 +41,7 @@ mod v_iface_seq {
         b[o + 2] = (v >> 8) as u8;
         b[o + 3] = v as u8;
     }
+    #[cfg(feature = "proto-ipv4")]
     fn ipv4_header(b: &mut [u8], total_len: usize, proto: u8, src: u32, dst: u32) {
         b[0] = 0x45;
         b[1] = 0;
@@ -45,6 +54,7 @@ mod v_iface_seq {
         put32(b, 12, src);
         put32(b, 16, dst);
     }
+    #[cfg(feature = "proto-ipv4")]
     fn reply_is_echo_from_own(p: &Packet) -> bool {
         let src_ok = match p.ip_repr() {
             IpRepr::Ipv4(r) => r.src_addr == OWN,
@@ -77,6 +87,7 @@ mod v_iface_seq {
         b
     }
 
+    #[cfg(all(feature = "proto-ipv4", feature = "medium-ip"))]
     fn echo_answered(iface: &mut Interface, sockets: &mut SocketSet) -> bool {
         let mut e = [0u8; 32];
         ipv4_header(&mut e, 32, 1, 0xc0a8_0102, OWN_U32);
@@ -92,7 +103,7 @@ mod v_iface_seq {
 
     // TCP listener: SYN-shaped free packet, then a free packet, then the echo request.
     // @harness props=C03 cfg=KI4t tier=q to=1800 mem=16 unwind=12 opts=nomem covers=2 funcs=InterfaceInner::process_ip;InterfaceInner::process_ipv4;InterfaceInner::process_tcp;tcp::Socket::process;InterfaceInner::process_icmpv4;PacketAssemblerSet::get bounds=raw-IP_medium,_one_listening_TCP_socket_(8-byte_rings);_frame_1:_40_octets_to_the_own_address_with_protocol_6_and_every_TCP_header_octet_free;_frame_2:_44_octets_to_the_own_address_with_protocol_6,_TCP_header_and_4_payload_octets_free;_frame_3:_echo_request
-    #[cfg(feature = "socket-tcp")]
+    #[cfg(all(feature = "proto-ipv4", feature = "medium-ip", feature = "socket-tcp"))]
     #[kani::proof]
     pub(crate) fn seq4_tcp_two_frames_then_echo() {
         iface4!(iface);
@@ -122,7 +133,7 @@ mod v_iface_seq {
     // request.  (Two packets with a free IP header as well - 32 octets each - ran out of 12 GB in this configuration
     // too; the free IP header is ipv4_bytes_free's single-frame subject.)
     // @harness props=C03 cfg=KI4u tier=q to=1800 mem=12 unwind=12 opts=nomem covers=2 funcs=InterfaceInner::process_ip;InterfaceInner::process_ipv4;InterfaceInner::process_udp;udp::Socket::process;InterfaceInner::process_icmpv4;InterfaceInner::icmpv4_reply bounds=raw-IP_medium,_one_bound_UDP_socket_(2_slots,_16-byte_ring);_frames_1_and_2:_IPv4_header_to_the_own_address_with_protocol_17_and_any_source,_then_12_free_octets_(ports,_length,_checksum,_payload);_frame_3:_echo_request
-    #[cfg(feature = "socket-udp")]
+    #[cfg(all(feature = "proto-ipv4", feature = "medium-ip", feature = "socket-udp"))]
     #[kani::proof]
     pub(crate) fn seq4_udp_two_frames_then_echo() {
         iface4!(iface);
@@ -148,5 +159,79 @@ mod v_iface_seq {
         let d2 = us.recv().is_ok();
         kani::cover!(got1 && d1 && d2, "both datagrams delivered to the socket");
         kani::cover!(got1 && r2, "first datagram delivered, second answered with an ICMP error");
+    }
+
+    // UDP socket, three datagrams: the socket's receive buffer has 2 metadata slots and 16 payload octets, so the third
+    // datagram meets a full buffer (or a closed port, or is malformed) - then the echo request.
+    // @harness props=C03 cfg=KI4u tier=q to=1800 mem=12 unwind=12 opts=nomem covers=2 funcs=InterfaceInner::process_ip;InterfaceInner::process_ipv4;InterfaceInner::process_udp;udp::Socket::process;PacketBuffer::enqueue;InterfaceInner::process_icmpv4;InterfaceInner::icmpv4_reply bounds=raw-IP_medium,_one_bound_UDP_socket_(2_slots,_16-byte_ring);_frames_1-3:_IPv4_header_to_the_own_address_with_protocol_17_and_any_source,_then_12_free_octets_(ports,_length,_checksum,_payload);_frame_4:_echo_request;_symbolic_start_time
+    #[cfg(all(feature = "proto-ipv4", feature = "medium-ip", feature = "socket-udp"))]
+    #[kani::proof]
+    pub(crate) fn seq4_udp_three_frames_then_echo() {
+        iface4!(iface);
+        let mut urm = [udp::PacketMetadata::EMPTY; 2];
+        let mut urp = [0u8; 16];
+        let mut utm = [udp::PacketMetadata::EMPTY; 2];
+        let mut utp = [0u8; 16];
+        let mut usock = udp::Socket::new(udp::PacketBuffer::new(&mut urm[..], &mut urp[..]), udp::PacketBuffer::new(&mut utm[..], &mut utp[..]));
+        usock.bind(53).unwrap();
+        let mut storage = [SocketStorage::EMPTY];
+        let mut sockets = SocketSet::new(&mut storage[..]);
+        let uh = sockets.add(usock);
+        let mut a: [u8; 32] = kani::any();
+        ipv4_header(&mut a, 32, 17, kani::any(), OWN_U32);
+        let r1 = iface.inner.process_ip(&mut sockets, PacketMeta::default(), &a[..], &mut iface.fragments).is_some();
+        let mut b: [u8; 32] = kani::any();
+        ipv4_header(&mut b, 32, 17, kani::any(), OWN_U32);
+        let r2 = iface.inner.process_ip(&mut sockets, PacketMeta::default(), &b[..], &mut iface.fragments).is_some();
+        let mut c: [u8; 32] = kani::any();
+        ipv4_header(&mut c, 32, 17, kani::any(), OWN_U32);
+        let r3 = iface.inner.process_ip(&mut sockets, PacketMeta::default(), &c[..], &mut iface.fragments).is_some();
+        crate::vassert!(echo_answered(&mut iface, &mut sockets), "prop:c03_echo_request_answered_after_arbitrary_frames");
+        let us = sockets.get_mut::<udp::Socket>(uh);
+        let d1 = us.recv().is_ok();
+        let d2 = us.recv().is_ok();
+        let d3 = us.recv().is_ok();
+        crate::vassert!(!d3, "prop:c03_no_more_datagrams_than_buffer_slots");
+        let to_port = |x: &[u8; 32]| x[22] == 0 && x[23] == 53 && x[24] == 0 && x[25] == 12;
+        kani::cover!(d1 && d2 && to_port(&c) && !r3, "two datagrams delivered, the third for the same port met the full buffer");
+        kani::cover!(d1 && !d2 && r2 && r3, "one datagram delivered, two answered with an ICMP error");
+    }
+
+    // ICMP socket bound to a UDP port (receives the ICMP errors quoting datagrams sent from that port): a destination
+    // unreachable and a time exceeded message (concrete type octets: with a free type octet, hence a message length that
+    // depends on it, 1.06 M steps / 33 M clauses ran out of 12 GB) with free code, checksum, unused word, quoted IP header
+    // (first octet 0x45, so the quote is 20 + 8 octets) and quoted datagram start, then the echo request.
+    // @harness props=C03 cfg=KI4i tier=q to=1800 mem=12 unwind=12 opts=nomem covers=2 funcs=InterfaceInner::process_ip;InterfaceInner::process_ipv4;InterfaceInner::process_icmpv4;Icmpv4Repr::parse;icmp::Socket::accepts_v4;icmp::Socket::process_v4;Icmpv4Repr::emit;InterfaceInner::icmpv4_reply bounds=raw-IP_medium,_one_ICMP_socket_bound_to_UDP_port_53_(2_slots,_48-byte_receive_ring:_one_36-octet_message_fits);_frame_1:_IPv4_header_to_the_own_address_with_protocol_1_and_any_source,_ICMP_type_3,_then_35_free_octets_except_that_the_quoted_IP_header_starts_with_0x45_(code,_checksum,_unused_word,_19_octets_of_the_quoted_IP_header,_8_quoted_octets);_frame_2:_the_same_with_ICMP_type_11;_frame_3:_echo_request;_symbolic_start_time
+    #[cfg(all(feature = "proto-ipv4", feature = "medium-ip", feature = "socket-icmp"))]
+    #[kani::proof]
+    pub(crate) fn seq4_icmp_errors_then_echo() {
+        iface4!(iface);
+        let mut irm = [icmp::PacketMetadata::EMPTY; 2];
+        let mut irp = [0u8; 48];
+        let mut itm = [icmp::PacketMetadata::EMPTY; 1];
+        let mut itp = [0u8; 8];
+        let mut isock = icmp::Socket::new(icmp::PacketBuffer::new(&mut irm[..], &mut irp[..]), icmp::PacketBuffer::new(&mut itm[..], &mut itp[..]));
+        isock.bind(icmp::Endpoint::Udp(IpListenEndpoint { addr: None, port: 53 })).unwrap();
+        let mut storage = [SocketStorage::EMPTY];
+        let mut sockets = SocketSet::new(&mut storage[..]);
+        let ih = sockets.add(isock);
+        let mut a: [u8; 56] = kani::any();
+        ipv4_header(&mut a, 56, 1, kani::any(), OWN_U32);
+        a[20] = 3;
+        a[28] = 0x45;
+        let r1 = iface.inner.process_ip(&mut sockets, PacketMeta::default(), &a[..], &mut iface.fragments).is_some();
+        let got1 = sockets.get::<icmp::Socket>(ih).can_recv();
+        let mut b: [u8; 56] = kani::any();
+        ipv4_header(&mut b, 56, 1, kani::any(), OWN_U32);
+        b[20] = 11;
+        b[28] = 0x45;
+        let r2 = iface.inner.process_ip(&mut sockets, PacketMeta::default(), &b[..], &mut iface.fragments).is_some();
+        crate::vassert!(!r1 && !r2, "prop:c03_icmp_errors_never_answered");
+        crate::vassert!(echo_answered(&mut iface, &mut sockets), "prop:c03_echo_request_answered_after_arbitrary_frames");
+        let is = sockets.get_mut::<icmp::Socket>(ih);
+        let d1 = is.recv().is_ok();
+        let d2 = is.recv().is_ok();
+        kani::cover!(got1 && d1 && !d2 && b[48] == 0 && b[49] == 53, "destination unreachable delivered, time exceeded for the same port met the full buffer");
+        kani::cover!(!got1 && d1 && !d2, "an error quoting another port ignored, the second one delivered");
     }
 }
